@@ -144,6 +144,11 @@ fn check_float(ctx: &mut Ctx, lit: &str) {
     ctx.count(&format!("f64.{}", class(w64)));
     let class32 = if w32 == 0.0 { "zero" } else if w32.is_infinite() { "overflow-to-inf" } else if w32.abs() < f32::MIN_POSITIVE { "subnormal" } else { "normal" };
     ctx.count(&format!("f32.{}", class32));
+    if ctx.index % 80 == 0 && lit.len() < 200 && events_enabled() {
+        let b64 = f64::try_from(t).map(|g| format!("\"{:016x}\"", g.to_bits())).unwrap_or_else(|e| e.get_code().to_string());
+        let b32 = f32::try_from(t).map(|g| format!("\"{:08x}\"", g.to_bits())).unwrap_or_else(|e| e.get_code().to_string());
+        log_event(&format!("{{\"k\":\"float\",\"lit\":{},\"f64\":{},\"f32\":{}}}", jstr(lit), b64, b32));
+    }
     match f64::try_from(t) {
         Ok(g) if g.to_bits() == w64.to_bits() => {}
         Ok(g) => ctx.violation(&format!("C08:f64-not-correctly-rounded:{}", class(w64)), jobj(&[("literal", jstr(lit)), ("library_bits", jstr(&format!("{:#018x} ({:e})", g.to_bits(), g))), ("reference_bits", jstr(&format!("{:#018x} ({:e})", w64.to_bits(), w64)))])),
@@ -164,6 +169,13 @@ fn check_bool_numeric(ctx: &mut Ctx, lit: &str) {
     };
     let h = d.cmp_half();
     let r = bool::try_from(Token::DecimalNumericProgramData(lit.as_bytes()));
+    if ctx.index % 60 == 0 && lit.len() < 200 && events_enabled() {
+        let res = match &r {
+            Ok(v) => format!("\"ok\":{}", v),
+            Err(e) => format!("\"err\":{}", e.get_code()),
+        };
+        log_event(&format!("{{\"k\":\"bool\",\"lit\":{},{}}}", jstr(lit), res));
+    }
     ctx.count(&format!("bool.numeric.{}", if h < 0 { "rounds-to-zero" } else if h == 0 { "exactly-half" } else { "rounds-to-nonzero" }));
     let ok = match (&r, h) {
         (Ok(false), x) if x <= 0 => true,
